@@ -311,8 +311,8 @@ def run_history_job(prog, job):
                 for o2 in call_all(eng, s1, new_node, [aref, Opq(BV8(200 + k))]):
                     res['paths'] += 1; res['steps'] += o2.state.steps
                     if o2.kind == 'return': work.append((o2.state, k + 1))
-                    elif 'C05.' in prefixes:
-                        check_obligations(eng, list(o2.state.pc), [('C05.no_panic@%s' % free_op, F_)], prefixes, res, lambda m, f: hv(m, f, 'drain'))
+                    else:
+                        check_obligations(eng, list(o2.state.pc), [('%s.history_call_completes@%s' % (p_, free_op), F_) for p_ in job['props']], prefixes, res, lambda m, f: hv(m, f, 'drain'))
             nf = z3.Not(V.ff_some)
             if eng.feasible(s, nf):
                 s2 = s.copy(); s2.pc.append(nf); s2.model = None
@@ -343,7 +343,7 @@ def run_history_job(prog, job):
                     if o3.kind == 'bound':
                         check_obligations(eng, list(o3.state.pc), [('C02.terminates' + tag3, F_)], prefixes, res, lambda m, f, ext=ext: hv(m, f, 'final', ext)); continue
                     if o3.kind != 'return':
-                        check_obligations(eng, list(o3.state.pc), [('C05.no_panic' + tag3, F_)], prefixes, res, lambda m, f, ext=ext: hv(m, f, 'final', ext)); continue
+                        check_obligations(eng, list(o3.state.pc), [('%s.history_call_completes%s' % (p_, tag3), F_) for p_ in job['props']], prefixes, res, lambda m, f, ext=ext: hv(m, f, 'final', ext)); continue
                     V3 = View(o3.state.store[acell])
                     ob = named(inv_links(V3) + inv_acyclic(V3), tag3)
                     check_obligations(eng, list(o3.state.pc), ob, prefixes, res, lambda m, f, ext=ext: hv(m, f, 'final', ext))
@@ -395,6 +395,9 @@ def confirm_history(prop, v):
             mid = replay.parse_dump(res[nd][1])
         except Exception:
             mid = None
+        for k_ in range(n0, len(lines)):
+            r_ = res.get(k_)
+            if r_ and r_[0] in ('PANIC', 'TIMEOUT', 'CRASH'): bad.append('%s: %s %s' % (lines[k_], r_[0], r_[1][:80]))
         if ok and mid is not None:
             if a['phase'] == 'drain':
                 V = View.from_dict(mid)
@@ -428,7 +431,7 @@ def confirm_history(prop, v):
                         if rz: l2.append('iter %s %s' % (a['iter'], rz))
                     r2 = replay.run_script(l2, profile, timeout=20)
                     fo = r2.get(nd, ('MISSING', ''))
-                    if fo[0] in ('TIMEOUT', 'CRASH'): bad.append('final operation did not return: %s' % fo[0])
+                    if fo[0] in ('TIMEOUT', 'CRASH', 'PANIC'): bad.append('final operation did not return normally: %s %s' % (fo[0], fo[1][:80]))
                     try:
                         fin = replay.parse_dump(r2[nd + 1][1])
                         V = View.from_dict(fin)
